@@ -58,8 +58,12 @@ pub fn run_case(c: &Case) -> Result<usize, String> {
     let inserts = c.inserts.build();
     let model = model_output(&inserts);
     let out = if c.pool > 0 {
-        let pool = rayon::ThreadPoolBuilder::new().num_threads(c.pool).build().map_err(|e| e.to_string())?;
-        pool.install(|| run_sorter(&c.cfg, &inserts, c.how))?
+        match rayon::ThreadPoolBuilder::new().num_threads(c.pool).build() {
+            Ok(pool) => pool.install(|| run_sorter(&c.cfg, &inserts, c.how))?,
+            // a pool that cannot be created is the environment's problem, not a verdict: fall
+            // back to the global pool
+            Err(_) => run_sorter(&c.cfg, &inserts, c.how)?,
+        }
     } else {
         run_sorter(&c.cfg, &inserts, c.how)?
     };
